@@ -53,6 +53,18 @@ const LOGSZ: usize = 1 << 18;
 static OUT_FD: AtomicI32 = AtomicI32::new(-1);
 static TICKET: AtomicU64 = AtomicU64::new(1);
 static NEXT_ID: AtomicU32 = AtomicU32::new(1);
+/// single-threaded runs: the worker samples VmSize (pages) after every allocating call, so that the
+/// high-water mark of a repetition is the real one and not only what is left at the barrier
+static VM_HIGH: AtomicU64 = AtomicU64::new(0);
+static SAMPLE_EVERY_CALL: AtomicU32 = AtomicU32::new(0);
+
+#[inline]
+fn sample_vm() {
+    if SAMPLE_EVERY_CALL.load(Ordering::Relaxed) != 0 {
+        let (vm, _) = sys::statm();
+        VM_HIGH.fetch_max(vm, Ordering::SeqCst);
+    }
+}
 
 #[inline]
 fn ticket() -> u64 {
@@ -327,6 +339,7 @@ unsafe fn do_alloc(w: usize, seq: &mut u64, size: usize, align: usize, zeroed: b
     let layout = Layout::from_size_align_unchecked(size, align);
     let p = if zeroed { alloc_zeroed(layout) } else { alloc(layout) };
     let g = ticket();
+    sample_vm();
     let id = NEXT_ID.fetch_add(1, Ordering::SeqCst);
     let b = Blk { ptr: p, size, align, id };
     let mut zero_ok = true;
@@ -358,6 +371,7 @@ unsafe fn do_realloc(w: usize, seq: &mut u64, b: &mut Blk, new_size: usize) {
     let g0 = ticket();
     let p = realloc(b.ptr, Layout::from_size_align_unchecked(b.size, b.align), new_size);
     let g = ticket();
+    sample_vm();
     if p.is_null() {
         // the old block stays valid
         let nb = Blk { ptr: core::ptr::null_mut(), size: new_size, align: b.align, id: b.id };
@@ -505,11 +519,14 @@ fn run_plan(line: &str) {
     main_ev("reset", &[("run", p.idx as u64), ("threads", p.threads as u64), ("reps", p.reps as u64), ("vm", vm0)]);
     let parties = p.threads as u32 + 1;
     let reps = p.reps;
+    SAMPLE_EVERY_CALL.store((p.threads == 1) as u32, Ordering::SeqCst);
+    VM_HIGH.store(0, Ordering::SeqCst);
     GEN.fetch_add(1, Ordering::SeqCst);
     sys::futex_wake_shared(GEN.as_ptr() as usize, 64);
     for _ in 0..reps {
         barrier(parties);
         let (vm, _) = sys::statm();
+        let vm = vm.max(VM_HIGH.swap(0, Ordering::SeqCst));
         main_ev("high", &[("vm", vm)]);
         barrier(parties);
         barrier(parties);
